@@ -404,7 +404,10 @@ def run_c05(chk, prog):
     cx = Ctx(prog)
     chk.notes.append("A1: every row of the extracted Message->Frame table (32 rows: all variants x 13 states x 6 operations) is pushed through the extracted "
                      "Frame->Message table for every data-length class the row admits; the result must be the original message. Injectivity is checked on the wire keys. "
-                     "The wire leg (frame <-> bytes) is C01's.")
+                     "The wire leg (frame <-> bytes) is the codec's: C01's rule set is run here too, as C05.wire(..).")
+    import p_frame
+    n = chk.include("C05.wire", p_frame.run_c01, prog)
+    chk.floor("C05.wire", "codec obligations (wire leg of the trip)", n, 40)
     mf = extract_mf(cx, chk)
     if not mf or len(cx.fm) != 1:
         chk.ob("A1.anchor", "both From impls present", False, key="anchor")
